@@ -16,8 +16,8 @@ What is proved here (machine-checked, unbounded):
     `taint_swallowed_error_unsound` (finding V2-E, open).  The third hypothesis needed before 1d97cee — no tuple is
     dropped by the condition filter *after* it claimed its key (finding V2-B) — is gone: the model (`DfsG.pull`)
     follows the fixed order, `mark_after_condition_sound` is the former witness system, now answered correctly.
-    The recursive strategy (`Recursive.buildTupleMapperForID`, not modelled) still has the old order:
-    `tie_recursive_mapper_order`, known finding V2-B(recursive).
+    The recursive strategy (`Recursive.buildTupleMapperForID`, not modelled step by step) had the old order until
+    commit 11f1667 (finding V2-B(recursive), fixed): `tie_recursive_mapper_order`, crafted regression cases.
   * `prune_weight_consistent` / `prune_wildcard_consistent`: the pruning tests of `ResolveCheck` agree with what
     `FlattenNode` would leave, under the local well-formedness (`wfWeights`, `wfWildcards`) of the dumped graph.
   * `v2_reducers_spec`: the three receive loops as functions of the arrival sequence — union order independent,
@@ -585,10 +585,11 @@ theorem tie_build_iterator : Gen.CheckV2.buildIteratorCalls =
       ["err != nil", "errors.Is(err, storage.ErrIteratorDone)", "f.onceValid || f.lastErr == nil", "err != nil", "!valid"] := by
   decide
 
-/-- the recursive strategy builds its own filter chain and still applies the visited filter **before** the condition
-filter (known finding V2-B(recursive)); when that is repaired this tie has to follow -/
+/-- the recursive strategy builds its own filter chain: contextual tuples first, then the condition filter, then the
+visited filter of its breadth-first search (since commit 11f1667; before it the visited filter came first and a
+tuple dropped by its condition claimed its target — finding V2-B(recursive)).  Reverting that fix breaks this tie. -/
 theorem tie_recursive_mapper_order : Gen.CheckV2.recursiveMapperCalls =
-    ["iterator.Concat", "BuildUniqueTupleKeyFilter", "BuildConditionTupleKeyFilter"] := by decide
+    ["iterator.Concat", "BuildConditionTupleKeyFilter", "BuildUniqueTupleKeyFilter"] := by decide
 
 /-- cache guards (C08/C10 read them too): the lookup is skipped for HIGHER_CONSISTENCY, an entry is valid only if
 newer than the invalidation time, and only results without error / cancellation are stored -/
